@@ -71,7 +71,9 @@ type multiSim struct {
 	res     *core.Result
 	cfg     multiCfg
 	keys    []*types.KVStoreKey
-	grown   bool // a sub-store was added after the first commit
+	grown   bool   // a sub-store was added after the first commit
+	twrites int    // C06: transient writes on node 0 since the last commit
+	tmode   string // C06: how they were written (direct | cms | nested | mixed)
 	tkey    *types.TransientStoreKey
 	nodes   []*msNode
 	work    []map[string][]byte
@@ -240,7 +242,34 @@ func (s *multiSim) commitAll() {
 			}
 		} else if s.prop == "C04" && !bytes.Equal(cid.Hash, first.Hash) {
 			s.violate("twin-hash", "multistore", fmt.Sprintf("version %d: %s hash %x, %s hash %x", cid.Version, s.nodes[0].name, first.Hash, n.name, cid.Hash))
+		} else if s.prop == "C06" && !bytes.Equal(cid.Hash, first.Hash) {
+			// the twin received the same persistent writes and no transient ones
+			s.violate("transient-writes-changed-commit-hash", "multistore", fmt.Sprintf("version %d: node with %d transient writes in this block hashes to %x, the twin without them to %x", cid.Version, s.twrites, first.Hash, cid.Hash))
 		}
+	}
+	if s.prop == "C06" {
+		// a transient store is empty again once the block is committed, however it was written
+		it, _ := s.nodes[0].rs.GetKVStore(s.tkey).Iterator(nil, nil)
+		left := 0
+		var firstKey []byte
+		for ; it.Valid(); it.Next() {
+			if left == 0 {
+				firstKey = append([]byte{}, it.Key()...)
+			}
+			left++
+		}
+		it.Close()
+		if left > 0 {
+			if s.tmode == "" {
+				s.tmode = "written-in-an-earlier-block"
+			}
+			s.violate("transient-survives-commit", s.tmode, fmt.Sprintf("after the commit of version %d the transient store still holds %d keys (first %x), written %s", s.latest+1, left, firstKey, s.tmode))
+		}
+		if s.twrites > 0 {
+			s.res.Probe("commit_after_transient_writes")
+		}
+		s.res.Case(fmt.Sprintf("c06/commit/twrites=%d/mode=%s", min(s.twrites, 3), s.tmode))
+		s.twrites, s.tmode = 0, ""
 	}
 	s.latest++
 	s.book[s.latest] = &bookEntry{stores: copyStores(s.work), cid: first, ops: s.pending}
@@ -264,6 +293,34 @@ func (s *multiSim) exec(st *multiStep) {
 			s.applyWrite(n.rs, o)
 		}
 		s.pending = append(s.pending, o)
+	case "tset":
+		// node 0 only: the twin never sees a transient write
+		rs := s.nodes[0].rs
+		k, v := core.UnHex(st.K), core.UnHex(st.V)
+		switch st.Mode {
+		case "cms":
+			c := rs.CacheMultiStore()
+			c.GetKVStore(s.tkey).Set(k, v)
+			c.Write()
+		case "nested":
+			c := rs.CacheMultiStore()
+			c2 := c.CacheMultiStore()
+			c2.GetKVStore(s.tkey).Set(k, v)
+			c2.Write()
+			c.Write()
+		default:
+			_ = rs.GetKVStore(s.tkey).Set(k, v)
+		}
+		if got, _ := rs.GetKVStore(s.tkey).Get(k); !bytes.Equal(got, v) {
+			s.violate("transient-write-lost", st.Mode, fmt.Sprintf("transient key %x written %s reads back %x", k, st.Mode, got))
+		}
+		s.twrites++
+		if s.tmode == "" || s.tmode == st.Mode {
+			s.tmode = st.Mode
+		} else {
+			s.tmode = "mixed"
+		}
+		s.res.Fault("transient_write_" + st.Mode)
 	case "commit":
 		s.commitAll()
 	case "reopen":
@@ -439,7 +496,12 @@ func (s *multiSim) genReads(r *core.Rand, st *multiStep) {
 func (s *multiSim) gen(r *core.Rand) *multiStep {
 	// weights:        set del commit reopen view read prove rollback crashcommit
 	w := []int{34, 12, 12, 0, 0, 0, 0, 0, 0}
+	if s.prop == "C06" && r.Chance(0.2) {
+		return &multiStep{Op: "tset", Mode: []string{"direct", "cms", "nested"}[r.Intn(3)], K: core.Hex(genKey(r, 2)), V: core.Hex(r.Bytes(1 + r.Intn(3)))}
+	}
 	switch s.prop {
+	case "C06":
+		w[3] = 2
 	case "C04":
 		w[3] = 5
 	case "C05":
@@ -536,7 +598,7 @@ func runMulti(prop string, seed uint64, tier string, replay *core.Schedule) (*co
 	s.tkey = types.NewTransientStoreKey("t0")
 	s.nodes = []*msNode{{name: "node", db: simdb.New(), iavlCache: cfg.IavlCache}}
 	switch prop {
-	case "C04":
+	case "C04", "C06":
 		s.nodes = append(s.nodes, &msNode{name: "twin", db: simdb.New(), iavlCache: cfg.TwinCache})
 	case "C10":
 		s.nodes[0].cacheOn = true
